@@ -10,7 +10,8 @@ From Coquelicot Require Import Coquelicot.
 From OV.base Require Import Num.
 From OV.model Require Import M_C03.
 From OV.gen Require Import Tab_TriQuad Tab_FsGeom.
-From OV.proofs Require Import L_C03sn L_C03cert L_C03tab L_C03lift.
+From Coq Require Import Permutation.
+From OV.proofs Require Import L_C03sn L_C03cert L_C03tab L_C03lift L_C03int L_C03div.
 Import ListNotations.
 Local Open Scope R_scope.
 
@@ -119,9 +120,22 @@ Theorem C03_mesh_quadrature : forall d f fx fy (mesh : list tri), PolyG d f fx f
         <= rsum (map (fun tP => Rabs (tri_jac (fst tP)) * pnorm1 (snd tP)) (combine mesh Ps)) * eps.
 Proof. exact lift_mesh_quadrature. Qed.
 
-(* axisymmetric mode (weight 2 pi r, r interpolated from the nodes): exact for integrands of degree <= d - 1.
-   Partial: stated for exact reference data (eps = 0); the tolerance version is not proved. *)
-Theorem C03_axisymmetric_partial : forall v0 v1 v2 p d k nodes pts Ns ws f fx fy P,
+(* axisymmetric mode (weight 2 pi r, r interpolated from the nodes): integrands of degree <= d - 1 are integrated to
+   2 pi * jac * (reference integral of the pulled-back r*f), with explicit propagation of the table tolerances
+   (eps_s: shape tables, eps_q: rule; M bounds |f| at the quadrature points); exact for exact data *)
+Theorem C03_axisymmetric : forall v0 v1 v2 p d k nodes pts Ns ws f fx fy P eps_s eps_q M,
+  (1 <= p)%nat -> (k + 1 <= d)%nat -> PolyG k f fx fy ->
+  TriQuadExact d eps_q pts ws ->
+  Forall2 (fun q N => exists Gx Gy, RefIds p eps_s nodes q N Gx Gy) pts Ns ->
+  pdeg_le d P -> (forall xi, fst (elmap v0 v1 v2 xi) * f (elmap v0 v1 v2 xi) = peval P xi) ->
+  0 <= M -> (forall q, In q pts -> Rabs (f (elmap v0 v1 v2 q)) <= M) -> 0 <= eps_s ->
+  Rabs (rdot (vols_axiR v0 v1 v2 Ns (map fst (map (elmap v0 v1 v2) nodes)) ws) (map f (map (elmap v0 v1 v2) pts))
+        - 2 * PI * (jacR v0 v1 v2 * pint_ref P))
+    <= 2 * PI * Rabs (jacR v0 v1 v2) *
+       (eps_q * pnorm1 P
+        + eps_s * (Rabs (fst v2) + Rabs (fst v0 - fst v2) + Rabs (fst v1 - fst v2)) * M * (1 / 2 + eps_q)).
+Proof. exact lift_axisymmetric_tol. Qed.
+Theorem C03_axisymmetric_exact : forall v0 v1 v2 p d k nodes pts Ns ws f fx fy P,
   (1 <= p)%nat -> (k + 1 <= d)%nat -> PolyG k f fx fy ->
   TriQuadExact d 0 pts ws ->
   Forall2 (fun q N => exists Gx Gy, RefIds p 0 nodes q N Gx Gy) pts Ns ->
@@ -145,14 +159,47 @@ Proof. exact elmap_vertices. Qed.
 Theorem C03_jacobian_cyclic : forall v0 v1 v2, jacR v1 v2 v0 = jacR v0 v1 v2.
 Proof. exact jacR_cyclic. Qed.
 
-(* NOT PROVED: C03_divergence -- for a closed counter-clockwise polygonal boundary and polynomial vector fields,
-     sum_edges int F.n = sum_elements int div F.  Not attempted within the budget (needs the edge-integral model, the
-     1-D change of variables and the cancellation on interior edges); this clause is only tested on the implementation
-     (L2 in tools/props/c03.py: boundary edge integrals against element integrals of the divergence on random meshes).
-   NOT PROVED: that pint_ref is the Riemann integral over the reference triangle (the Beta-function identity
-     int_0^1 int_0^(1-x) x^i y^j dy dx = i! j!/(i+j+2)!); the theorems take that monomial formula as the definition of
-     the integral of a polynomial, as DESIGN.md section 3 allows.
-   NOT PROVED: the tolerance (eps > 0) version of the axisymmetric clause. *)
+(* ---- the monomial formula is the Riemann integral; integrals over triangles *)
+Theorem C03_tri_moment_is_integral : forall i j,
+  is_RInt (fun x => RInt (fun y => rmon (x, y) (i, j)) 0 (1 - x)) 0 1 (tri_moment i j).
+Proof. exact tri_moment_is_integral. Qed.
+Theorem C03_reference_integral : forall P, RInt (fun x => RInt (fun y => peval P (x, y)) 0 (1 - x)) 0 1 = pint_ref P.
+Proof. exact pint_ref_is_integral. Qed.
+(* quadrature against the genuine integral  int_tri v0 v1 v2 f = jac * int_ref (f o X)  (affine change of variables) *)
+Theorem C03_quadrature_integral : forall v0 v1 v2 d f fx fy, PolyG d f fx fy ->
+  exists C, 0 <= C /\ forall eps pts ws, TriQuadExact d eps pts ws ->
+    Rabs (rdot (volsR v0 v1 v2 ws) (map f (map (elmap v0 v1 v2) pts)) - int_tri v0 v1 v2 f)
+      <= Rabs (jacR v0 v1 v2) * (C * eps).
+Proof. exact lift_quadrature_integral. Qed.
+
+(* ---- divergence theorem for polynomial vector fields F = (F1, F2).
+   flux F1 F2 A B = int_0^1 F1(A + s t) ds * t_y - int_0^1 F2(A + s t) ds * t_x,  t = B - A  (= int_edge F.n ds with the
+   normal to the right of the direction of travel, i.e. outward on a counter-clockwise boundary) *)
+Theorem C03_divergence_triangle : forall k F1 f1x f1y l F2 f2x f2y v0 v1 v2, PolyG k F1 f1x f1y -> PolyG l F2 f2x f2y ->
+  flux F1 F2 v0 v1 + flux F1 F2 v1 v2 + flux F1 F2 v2 v0 = int_tri v0 v1 v2 (fun x => f1x x + f2y x).
+Proof. exact divergence_triangle. Qed.
+(* mesh: if the directed element edges are the boundary edges plus interior edges traversed once in each direction, the
+   boundary flux equals the sum over elements of the integral of div F *)
+Theorem C03_divergence_mesh : forall k F1 f1x f1y l F2 f2x f2y (mesh : list tri) (bnd inter : list dedge),
+  PolyG k F1 f1x f1y -> PolyG l F2 f2x f2y ->
+  Permutation (flat_map tri_edges mesh) (bnd ++ flat_map both_ways inter) ->
+  rsum (map (eflux F1 F2) bnd) = rsum (map (int_tri' (fun x => f1x x + f2y x)) mesh).
+Proof. exact divergence_mesh. Qed.
+(* the edge quadrature sum  sum_q w_q |t| F(X_q).n  of FunctionSpace.integrate_function_on_edge, at the exact edge points
+   X_q = A + s_q t, equals the flux up to C * eps for a 1-D rule exact to degree d1 >= deg F *)
+Theorem C03_edge_flux_quadrature_partial : forall k F1 f1x f1y l F2 f2x f2y A B d1,
+  PolyG k F1 f1x f1y -> PolyG l F2 f2x f2y -> (k <= d1)%nat -> (l <= d1)%nat ->
+  exists C, 0 <= C /\ forall eps xs ws, Gauss1dExact d1 eps xs ws ->
+    Rabs (discrete_flux F1 F2 A B xs ws - flux F1 F2 A B) <= C * eps.
+Proof. exact edge_flux_quadrature. Qed.
+
+(* NOT PROVED (divergence clause, remaining gap between the theorems above and the implementation's numbers):
+     - the implementation evaluates F at X_q = sum_a N_a(s_q) X_a; the certificates give |X_q - (A + s_q t)| <= eps |..|
+       (RefIds1 with k = 1), but the propagation of that perturbation through F (a Lipschitz bound for F) is not proved:
+       C03_edge_flux_quadrature_partial is stated at the exact edge points;
+     - the premise of C03_divergence_mesh (element edges = boundary edges + interior edges once in each direction) is a
+       property of Mesh.create_edges on a valid triangulation and belongs to C13.
+   Both are exercised on the implementation by L2 (boundary flux vs exact integral of div F on random meshes). *)
 
 (* non-vacuity: exact P1 data with the one-point rule satisfy the hypotheses; a concrete non-degenerate
    counter-clockwise triangle and a concrete degree-1 field exist *)
@@ -168,5 +215,5 @@ Print Assumptions C03_tri_tables_exact.
 Print Assumptions C03_shapes_cert_sound.
 Print Assumptions C03_interpolation_and_gradient.
 Print Assumptions C03_mesh_area_ccw.
-Print Assumptions C03_mesh_quadrature.
-Print Assumptions C03_axisymmetric_partial.
+Print Assumptions C03_axisymmetric.
+Print Assumptions C03_divergence_mesh.
